@@ -761,7 +761,7 @@ def ts5(ctx, pid):
     _ts5_verifier(ctx)
 
 
-def _ts5_gen_path(ctx, f, st, kind, acts, node, key, ck, ksw, probs, rows):
+def _ts5_gen_path(ctx, f, st, kind, acts, node, key, ck, ksw, probs, rows, whole=None, plen=None):
     eng = S(ctx)
     if kind == "BLANK":
         if acts:
@@ -798,10 +798,20 @@ def _ts5_gen_path(ctx, f, st, kind, acts, node, key, ck, ksw, probs, rows):
         probs.append("%s node: after the node `%s` follows, expected the walk below the child" % (kind, tstr(rest[0][1])[:50]))
         return
     args = rest[0][1][2][1:]
-    if len(args) != 2:
+    if len(args) != (2 if plen is None else 3):
         probs.append("%s node: the walk is continued with %d arguments" % (kind, len(args)))
         return
-    nxt, k2 = args
+    if plen is None:
+        nxt, k2 = args
+    else:
+        # (next node, the whole key, proven length): what is left of the key below is key[new proven length:]
+        nxt, kw_, pl2 = args
+        if kw_ != whole:
+            probs.append("%s node: the key is changed in the recursion" % kind)
+            return
+        d = eng.mk_bin("-", pl2, plen) if hasattr(eng, "mk_bin") else None
+        want_ext, want_br = eng.mk_bin("+", plen, ("len", ck)), eng.mk_bin("+", plen, C(1))
+        k2 = ("slice", key, ("len", ck), None) if pl2 == want_ext else (("slice", key, C(1), None) if pl2 == want_br else ("slice", whole, pl2, None))
     if kind == "EXT":
         if kswv is not True:
             probs.append("extension: descent without key_starts_with(key, extension path)")
@@ -831,7 +841,9 @@ def _ts5_generator(ctx, f):
     left only when the key does not continue its path, and entered with get_node(node[1]) and the key minus the
     path; a branch ends the walk exactly on an exhausted key and is entered with get_node(node[key[0]]), key[1:]."""
     eng = S(ctx)
-    node, key = ("p", f.params[1]), ("p", f.params[2])
+    node, whole = ("p", f.params[1]), ("p", f.params[2])
+    plen = ("p", f.params[3]) if len(f.params) == 4 else None  # the proven length travels along, or the key is cut
+    key = whole if plen is None else ("slice", whole, plen, None)
     ck = ("call", NODES + "extract_key", (node,), ())
     ksw = ("call", NODES + "key_starts_with", (key, ck), ())
     probs = []
@@ -850,7 +862,7 @@ def _ts5_generator(ctx, f):
                 acts.append(("from", eng.ev(ev.node.value, f, st)))
         # a path that does not tell the kinds apart is a path of each of them
         for kind in sorted(ks):
-            _ts5_gen_path(ctx, f, st, kind, acts, node, key, ck, ksw, probs, rows)
+            _ts5_gen_path(ctx, f, st, kind, acts, node, key, ck, ksw, probs, rows, whole, plen)
     want = {"LEAF": {"stop"}, "EXT": {"stop", "descend"}, "BRANCH": {"stop", "descend"}}
     c = "proof-accumulates:HexaryTrie._get_proof"
     if probs:
@@ -864,7 +876,12 @@ def _ts5_generator(ctx, f):
     rets = pq.rets(ctx, g)
     inner = ("call", f.qual, (("self",), ("call", HEX + ".get_node", (("self",), ("attr", ("self",), "root_hash")), ()),
                              ("call", NIB + "bytes_to_nibbles", (("p", "key"),), ())), ())
-    if rets == {("call", "ext:tuple", (inner,), ())}:
+    wrapped = any(d_.split(".")[-1] in ("to_tuple", "to_list") for d_ in f.decos)
+    if plen is not None:
+        d0 = f.defaults().get(f.params[3])
+        if not (isinstance(d0, ast.Constant) and d0.value == 0 and type(d0.value) is int):
+            ctx.bad("proof-starts-empty:HexaryTrie._get_proof", f.loc(), "the proven length does not default to 0")
+    if rets == {("call", "ext:tuple", (inner,), ())} or (wrapped and rets == {inner}):
         ctx.ok("proof-entry:HexaryTrie.get_proof", g.loc(), "get_proof(key) = tuple(%s(root node, nibbles(key)))" % f.name)
     else:
         ctx.bad("proof-entry:HexaryTrie.get_proof", g.loc(), "get_proof returns `%s`" % "; ".join(tstr(r)[:70] for r in rets))
